@@ -378,7 +378,7 @@ def run_drill(case, rec, rng):
             live = [u for u in holes if u not in removed_holes]
             k = rng.choice(["rm_data", "rm_hole", "rm_data", "reopen", "copy_hole", "rm_protected"])
             via = rng.choice(["workspace", "parent"])
-            if k == "rm_hole" and len(live) > 1:
+            if k == "rm_hole" and (len(live) > 1 or (len(live) == 1 and rng.random() < 0.5)):  # the group's last hole goes too
                 u = rng.choice(live)
                 h = ws.get_entity(uuid.UUID(u))[0]
                 kids = [str(c.uid) for c in h.children if hasattr(c, "values")]
